@@ -6,20 +6,24 @@
 (*                                                                         *)
 (* Strings are sequences of single-character strings.                      *)
 (*                                                                         *)
-(*  TRANSCRIPTION  Normalize(T, path) = garbage_collector.py:266-270       *)
+(*  TRANSCRIPTION  Normalize(T, path) = garbage_collector.py:315-319       *)
 (*      def _normalize_path(self, path):                                   *)
 (*          if path.startswith(self.table_path):                           *)
 (*              path = path[len(self.table_path):]                         *)
 (*          return path.lstrip("/")                                        *)
 (*                                                                         *)
-(*  How collect() uses it (garbage_collector.py:86-155, 222-264):          *)
-(*   reachable set = Normalize(T, referenced path)   for snapshot.         *)
-(*       manifest_list, manifest_path, data_file.file_path, marker payload *)
-(*   candidate     = Normalize(T, listed path)       for every path        *)
-(*       storage.list_files returns ("data/x", table-relative)             *)
-(*   a candidate not in the reachable set (and old enough) is DELETED;     *)
-(*   normalised manifest paths are also handed back to storage.exists /    *)
-(*   read_manifest*_file (a path storage cannot find aborts the GC).       *)
+(*  How the collector keys paths:                                          *)
+(*   mode "asis" (before /repo 526391b): reachable set = Normalize(T,      *)
+(*       referenced path) for snapshot.manifest_list, manifest_path,       *)
+(*       data_file.file_path, marker payload; candidate = Normalize(T,     *)
+(*       listed path) for every table-relative path storage.list_files     *)
+(*       returns; a candidate not in the reachable set (and old enough) is *)
+(*       DELETED; normalised manifest paths are also handed back to        *)
+(*       storage.exists / read_manifest*_file.                             *)
+(*   mode "repaired" (since 526391b, = DESIGN 7.1): candidate =            *)
+(*       _normalize_listed_path (:321-332, lstrip only); a reference       *)
+(*       contributes BOTH readings: _reference_keys (:334-347) =           *)
+(*       {lstrip(ref), Normalize(T, ref)}.                                 *)
 (*                                                                         *)
 (*  REFERENCE  what C05 needs from the function, for a table location      *)
 (*  spelled T and internal files p (data/<f>, metadata/manifests/<f>,      *)
@@ -31,10 +35,11 @@
 (*                 (what storage resolves)                                 *)
 (*                                                                         *)
 (*  Mode (named flag, rule "the spec models the code as it is"):           *)
-(*   "asis"     : the transcription above on both sides                    *)
-(*   "repaired" : DESIGN 7.1 candidate fix for S3: listed paths are only   *)
-(*                lstripped; a referenced path contributes BOTH readings   *)
-(*                (as-is and prefix-stripped) to the reachable set         *)
+(*   "repaired" : the code as it is (harness/normalize_check.py probes the *)
+(*                real functions and picks the faithful mode itself)       *)
+(*   "asis"     : the defect S3 - Normalize on both sides; must FAIL       *)
+(*                NormalizeAgrees (companion AsIsAgrees), exactly on the   *)
+(*                spellings characterised by Bites                         *)
 (***************************************************************************)
 EXTENDS Integers, Sequences, FiniteSets, TLC
 
@@ -45,7 +50,7 @@ RECURSIVE LStrip(_)
 LStrip(s) == IF Len(s) > 0 /\ s[1] = SL THEN LStrip(Tail(s)) ELSE s         \* s.lstrip("/")
 EndsWithSlash(s) == Len(s) > 0 /\ s[Len(s)] = SL
 
-\* garbage_collector.py:266-270
+\* garbage_collector.py:315-319
 Normalize(T, path) ==
   LStrip(IF PrefixOf(T, path) THEN SubSeq(path, Len(T) + 1, Len(path)) ELSE path)
 
